@@ -9,7 +9,7 @@ CONSTANTS Depth, MaxW, MaxS, MaxAtt, MaxNow
 Modes == {"async", "ok", "fail"}
 Init == \E h \in BOOLEAN, sc \in BOOLEAN, cm \in Modes, hm \in Modes :
            InitWith([hook |-> h, syncClose |-> sc, pol |-> <<1, 2>>, cmode |-> cm, hmode |-> hm])
-WhenArgs == {<<0, "none">>, <<1, "none">>, <<2, "none">>, <<0, "stop">>, <<0, "when">>, <<1, "start">>}
+WhenArgs == {<<0 - 1, "none">>, <<0, "none">>, <<1, "none">>, <<2, "none">>, <<0 - 1, "stop">>, <<0 - 1, "when">>, <<1, "start">>}
 MCNext == \/ Start
           \/ \E t \in {"none", "start", "when"} : Stop(t)
           \/ \E a \in WhenArgs : When(a[1], a[2])
